@@ -334,6 +334,16 @@ def run(ctx):
         "bisimulation demands isomorphic reachable automata (same action kind/rule/message per symbol, gotos defined alike) — canonical LR(1) tables of one generator are isomorphic, so this is not stronger than behavioural equality here",
     ]
     st_ = vlib.Stats()
+    # the reference itself: generating a parser from the grammar in the source must succeed
+    try:
+        fresh_module_parser()
+        fresh_expression_parser()
+    except Exception:
+        import traceback
+
+        st_.fail(dict(kind="fresh-parser-generation-fails", **emb.exc_signature()), {"grammar": "module_ir.PRODUCTIONS + error_examples"}, "a parser can no longer be generated from the grammar in the source, so the shipped tables cannot be the generated ones:\n" + traceback.format_exc()[-3000:])
+        ctx.stats = st_
+        return ctx.finish(None)
     mismatch = parser.module_parser_cache_mismatch()
     if mismatch[0] or mismatch[1]:
         st_.fail({"kind": "cache-production-mismatch"}, {"only_cached": [str(p) for p in mismatch[0]], "only_grammar": [str(p) for p in mismatch[1]]}, "cached parser's production set differs from module_ir.PRODUCTIONS; embossc regenerates the parser on every start")
